@@ -1375,3 +1375,65 @@ func emptyFallbackGuarded(f *ssa.Function, profileCall *ssa.Call) bool {
 	})
 	return nonEmptyConst
 }
+
+// handlerHappyPath (C09-R7, hap/http has no tests of its own: an inverted guard there passes the suite): the authenticating wrapper lets a
+// request through on the branch where the session and its encrypter are there (an inverted test refuses every verified controller — or
+// dereferences a nil session), and what a PUT asks for is carried out on the branch where its body was decoded.
+func handlerHappyPath(c *core.Ctx) {
+	p := c.P
+	if f := p.Func("hap/http", "(*Server).Authenticate"); f != nil {
+		for _, cl := range f.AnonFuncs {
+			var next ssa.Instruction
+			var sess ssa.Value
+			core.Instrs(cl, func(i ssa.Instruction) {
+				if cc := core.CallOf(i); cc != nil && cc.IsInvoke() && cc.Method.Name() == "ServeHTTP" {
+					next = i
+				}
+				if core.IsInvoke(i, qContext, "GetSessionForRequest") {
+					sess = i.(*ssa.Call)
+				}
+			})
+			if next == nil || sess == nil {
+				continue
+			}
+			s := sess
+			isSess := func(v ssa.Value) bool { return v == s }
+			isEnc := func(v ssa.Value) bool {
+				call, ok := v.(*ssa.Call)
+				return ok && core.IsInvoke(call, qSession, "Encrypter")
+			}
+			refusedWhenThere := core.Dominated(next, core.IsNilFact(isSess)) || core.Dominated(next, core.IsNilFact(isEnc))
+			c.Check(!refusedWhenThere, "wrapper-admits-verified@"+fname(f), posOf(next), "the wrapped handler is reached where session and encrypter are there",
+				"the wrapped handler is reached only where the session (or its encrypter) is nil: the test is the wrong way round — every verified controller is refused (and a request without session dereferences nil)")
+		}
+	}
+	if f := p.Func("hap/http", "(*Server).Characteristics"); f != nil {
+		for _, b := range bodies(f) {
+			var dec *ssa.Call
+			core.Instrs(b.fn, func(i ssa.Instruction) {
+				if g := core.Callee(i); g != nil && cn(g) == "JSONDecode" {
+					dec, _ = i.(*ssa.Call)
+				}
+			})
+			if dec == nil {
+				continue
+			}
+			d := dec
+			isErr := func(v ssa.Value) bool { return v == ssa.Value(d) }
+			n := 0
+			core.Instrs(b.fn, func(i ssa.Instruction) {
+				g := core.Callee(i)
+				isEffect := g != nil && (cn(g) == "UpdateValueFromConnection") || core.IsInvoke(i, qSession, "Subscribe") || core.IsInvoke(i, qSession, "Unsubscribe")
+				if !isEffect {
+					return
+				}
+				n++
+				c.Check(core.Dominated(i, core.IsNilFact(isErr)) && !core.Dominated(i, core.NonNilFact(isErr)), seqKey(c, "request-carried-out-where-decoded@"+fname(b.fn)), posOf(i), "on the branch where the body was decoded",
+					"a write / subscription of a PUT is not carried out on the branch where the body was decoded (the test of the decoder's error is the wrong way round or missing): decoded requests are answered with an error and never carried out")
+			})
+			if n == 0 {
+				c.Note("request-carried-out-where-decoded@"+fname(b.fn), b.fn.Pos(), "no write or subscription in the function that decodes the body (carried out in a helper: judged there)")
+			}
+		}
+	}
+}
